@@ -121,10 +121,50 @@ def part_guards(pid):
     return run
 
 
+TAB_TXT = ("R-TAB: relations between the constant tables (read from the IR initialisers) and the small lattice kernels: %s. Every relation "
+           "is a consequence of the geometry (inverse maps, symmetry, derivability), asserted over live entries only; no table is compared with a copy of itself.")
+TAB_DESC = {
+    "T1": "T1 digit transition tables = unique aperture-7 decomposition under _downAp7/_downAp7r",
+    "T2": "T2 hexagon rows of baseCellNeighbors/60CCWRots = faceIjkBaseCells[home + unit vector]",
+    "T3": "T3 base-cell adjacency symmetric, rotations cancel / follow the pentagon wedge rule, return direction determined",
+    "T4": "T4 every home address looks itself up, cross-face entries agree with their image on the adjacent face",
+    "T5": "T5 faceNeighbors/adjacentFaceDir mutual inverse affine maps",
+    "T6": "T6 faceCenterPoint = unit vector of faceCenterGeo",
+    "T7": "T7 one pentagon set and one base-cell count in every table, counter and enumerator bound",
+    "T8": "T8 direction<->vertex-number maps inverse, DIRECTIONS = ccw cycle, reverse directions opposite",
+    "T9": "T9 maxDim/unitScale = 2*7^(r/2), 7^(r/2)",
+    "T10": "T10 digit rotation = coordinate rotation, inverse 6-cycles",
+    "T11": "T11 sibling shortcut of areNeighborCells = carry-free neighbours of the digit tables",
+    "T12": "T12 pentagonDirectionFaces / cwOffsetPent agree with the base-cell tables",
+    "T13": "T13 substrate vertex tables: pentagon = first five of hexagon, closed ccw rings",
+    "T14": "T14 PENTAGON_ROTATIONS_REVERSE undoes PENTAGON_ROTATIONS",
+    "T16": "T16 paired scalar constants mutually consistent",
+}
+
+
+def part_tables(rels, only_keys=None):
+    def run(ctx):
+        from . import rules_tab
+        m = module("release", "ssa")
+        rules_tab.run(ctx, m, "release", rels, only_keys)
+        ctx.explanation += TAB_TXT % "; ".join(TAB_DESC[r] for r in rels) + " "
+        ctx.floor("R-TAB", "relations evaluated", len([o for o in ctx.obligations if o["rule"] == "R-TAB"]), len(rels))
+    return run
+
+
 PARTS = {
-    "C01": [part_guards("C01")], "C02": [part_guards("C02")], "C04": [part_guards("C04")], "C05": [part_guards("C05")],
-    "C06": [part_guards("C06")], "C09": [part_guards("C09")], "C10": [part_guards("C10")], "C11": [part_guards("C11")],
+    "C01": [part_guards("C01"), part_tables(["T7"], {"T7": ["isBaseCellPentagonArr"]})],
+    "C02": [part_guards("C02"), part_tables(["T6", "T16"])],
+    "C03": [part_guards("C03"), part_tables(["T7", "T4", "T5", "T9"], {"T7": ["pentagonCount", "res0CellCount", "getRes0Cells", "getPentagons", "baseCellNeighbors:rows", "baseCellNeighbor60CCWRots:rows"]})],
+    "C04": [part_guards("C04")],
+    "C05": [part_guards("C05"), part_tables(["T1", "T2", "T3", "T10", "T11", "T7"], {"T7": ["baseCellNeighbors", "baseCellNeighbor60CCWRots"]})],
+    "C06": [part_guards("C06")],
+    "C08": [part_tables(["T5", "T9", "T13"])],
+    "C09": [part_guards("C09"), part_tables(["T1", "T2", "T3", "T10", "T14"])],
+    "C10": [part_guards("C10"), part_tables(["T8", "T12"])],
+    "C11": [part_guards("C11"), part_tables(["T8", "T12", "T7"], {"T7": ["pentagonDirectionFaces"]})],
     "C12": [part_guards("C12")], "C13": [part_guards("C13")], "C14": [part_guards("C14")], "C15": [part_guards("C15")],
+    "C19": [part_tables(["T5", "T9"])],
     "C20": [part_guards("C20")],
 }
 
